@@ -408,6 +408,24 @@ Definition mon_C04 (m : mstate) (pre : obs) (o : op) (sc : script) (x : out)
                   end
              else                                                       (* nothing happens to it *)
                match after with Some k' => trk_eqb k k' | None => false end) (o_trks pre)) 4 ++
+      (* "... and its slots refunded": a connected block changes a surviving user's persisted balance by exactly
+         the slots of the trackers of that user that complete in it (nothing else moves a balance in a block) *)
+      chk (forallb (fun r =>
+             let u := fst r in
+             match user_row post u with
+             | None => true
+             | Some ui' =>
+                 let refund :=
+                   fold_right (fun a s =>
+                                 if N.eqb (a_user a) u then
+                                   match find_trk (o_trks pre) (app_uuid a) with
+                                   | Some k => if negb (memN (t_dispute k) txs) && negb (memN (t_penalty k) txs) && completing h txs k
+                                               then slots_of (b_len (a_blob a)) + s else s
+                                   | None => s
+                                   end
+                                 else s) 0 (o_apps pre) in
+                 N.eqb (u_slots ui') (u_slots (snd r) + refund)
+             end) (o_users pre)) 4 ++
       (* recorded as confirmed only in a block of the active chain that contains the penalty *)
       chk (forallb (fun k =>
              implb (t_conf k && negb (existsb (fun k0 => trk_eqb k0 k) (o_trks pre)))
